@@ -309,3 +309,8 @@ def run(P, rep, tier):
     rep.rule('R01.4', 'implicit conversions at use sites: each argument of a prototyped call is converted to the type of its own parameter, float arguments passed through ... are promoted to double, postfix ++/-- is (T)((A += k) - k)', floor=3)
     r_conversion_sites(P, rep, 'R01.4')
     r_return_conversion(P, rep)
+    from .c16 import r_atomic_operand_type
+    r_atomic_operand_type(P, rep, 'R01.4')
+    from .c03 import r_logic
+    rep.rule('R01.10', '&& and ||: the left operand is evaluated and tested first, the right operand only when it decides the result, each operand is compared with zero at its own type and width, and the result is the int 0 or 1', floor=8)
+    r_logic(cg, rep, 'R01.10')
